@@ -461,13 +461,18 @@ impl<O: PlainOracle> System for PlainSys<O> {
     }
     fn render(&self, a: &PAct) -> String {
         match a {
-            PAct::Cc(c, v) | PAct::CcProbe(c, v) => format!("cc:{}:{}:{}", self.ch, c, v),
+            PAct::Cc(c, v) => format!("cc:{}:{}:{}", self.ch, c, v),
+            PAct::CcProbe(c, v) => format!("ccprobe:{}:{}:{}", self.ch, c, v),
             PAct::Transparent(i) => {
                 let (s, a, b) = self.noncontrib[*i as usize];
-                format!("raw:{}:{}:{}", s, a, b)
+                format!("transparent:{}:{}:{}", s, a, b)
             }
-            PAct::Reset | PAct::ResetProbe => "reset".to_string(),
+            PAct::Reset => "reset".to_string(),
+            PAct::ResetProbe => "resetprobe".to_string(),
         }
+    }
+    fn rust_preamble(&self) -> String {
+        format!("let mut scanner = helgoboss_midi::{}::new();", <O::Sc as Scanner>::NAME)
     }
     fn rust_line(&self, a: &PAct) -> String {
         match a {
